@@ -191,6 +191,24 @@ int main(void)
 			if (!ok) destroy(it); else free(old_const);
 			if (!(ok && ck)) free(key);      /* a constant key that was attached is released with the item */
 			destroy(obj);
+		} else if (strcmp(op, "R") == 0) {
+			parse_fails(next_tok(&sp));
+			(void)next_tok(&sp);                      /* <checked>: for the model only */
+			char *key = opt_str(next_tok(&sp));
+			cJSON *obj = build(&sp);
+			cJSON *it = build(&sp);
+			if (!obj || !it || !key) { puts("ERROR bad R"); continue; }
+			char *old_const = (it->type & cJSON_StringIsConst) ? it->string : NULL;
+			h_next = 0; h_live = 1000;
+			cJSON_bool ok = cJSON_ReplaceItemInObject(obj, key, it);
+			printf("%s next=%lu live=%ld | ", ok ? "ok" : "FAIL", h_next, h_live);
+			dump(obj);
+			fputs(" | ", stdout);
+			if (ok) puts("consumed");
+			else { fputs("orphan ", stdout); dump(it); putchar('\n'); destroy(it); }
+			free(old_const);
+			free(key);
+			destroy(obj);
 		} else if (strcmp(op, "A") == 0) {
 			int idx = atoi(next_tok(&sp));
 			cJSON *it = build(&sp);
